@@ -60,6 +60,22 @@ Qed.
 Lemma check_code_np : forall ty b, check_code ty b <> Panic.
 Proof. unfold check_code; intros [t |] b; try discriminate. destruct (_ <? _)%nat; try discriminate. destruct (_ =? _); discriminate. Qed.
 
+Lemma custom_dec_np : forall f b, custom_dec f b <> Panic.
+Proof.
+  intros [n |] b; unfold custom_dec.
+  - apply bind_not_panic; [unfold take; destruct (_ <? _)%nat; discriminate | intros; discriminate].
+  - destruct b as [| l r]; [discriminate |].
+    apply bind_not_panic; [unfold take; destruct (_ <? _)%nat; discriminate | intros; discriminate].
+Qed.
+
+Lemma custom_dec_ok : forall f b bs n, custom_dec f b = Ok (bs, n) -> (n <= length b)%nat.
+Proof.
+  intros [m |] b bs n H; unfold custom_dec in H.
+  - apply bind_ok in H as [x [Ht H]]. apply take_ok in Ht as [Hl _]. inversion H; subst. assumption.
+  - destruct b as [| l r]; [discriminate |]. apply bind_ok in H as [x [Ht H]]. apply take_ok in Ht as [Hl _].
+    inversion H; subst. simpl. lia.
+Qed.
+
 Lemma check_bounds_np : forall a b c, check_bounds a b c <> Panic.
 Proof. unfold check_bounds; intros. destruct (_ && _); try discriminate. destruct (_ && _); discriminate. Qed.
 
@@ -254,6 +270,12 @@ Proof.
       * intros c _. apply bind_not_panic; [apply IH |]. intros [v n] _. discriminate.
     + intros v n H. simpl in H. inv_bind H. inv_bind Hk. destruct a0 as [v' n']. inversion Hk0; subst.
       eapply IH; eauto.
+  - (* SCustom *) intros ty f p. split; [| exact I]. intros val tot b; split.
+    + simpl. apply bind_not_panic; [apply check_code_np |]. intros c _.
+      apply bind_not_panic; [apply custom_dec_np |]. intros [bs n] _. destruct (val && negb _); discriminate.
+    + intros v m H. simpl in H. inv_bind H. apply check_code_ok in Hb. inv_bind Hk. destruct a0 as [bs n].
+      apply custom_dec_ok in Hb0. rewrite skipn_length in Hb0.
+      destruct (val && negb _); try discriminate. inversion Hk0; subst. lia.
   - (* FNil *) intros val tot b. simpl. repeat split; try discriminate. intros vs n H; inversion H; lia.
   - (* FCons *) intros k s [IHs IHemb] r IHr val tot b.
     (* facts about the field-value step *)
